@@ -3,9 +3,25 @@ package snapshot
 // C11: open snapshot streams never race with reaping.
 //
 // Part (b)  exactly-once release of the read hold by a LockingStreamer
-//   VerifC11Streamer     real NewLockingStreamer / Read / Close / idle timer (time.AfterFunc on the
-//                        model clock) driven from two goroutines + the clock, any sequence of K ops
-// Part (a)  lock balance of the exported Store methods (see further down)
+//   VerifC11Streamer       real NewLockingStreamer / Read / Close / idle timer (time.AfterFunc on the
+//                          model clock) driven from worker goroutines + the clock: every sequence of
+//                          K operations out of Read (data / no data / stalling in the underlying
+//                          reader), Close (plain / underlying closer fails / takes a while / issued at
+//                          the very instant the idle timer is due / issued while a release is in
+//                          progress), "the stalled call returns", time passing (4, 6, 10 units with a
+//                          timeout of 10 units; timeout disabled)
+//   VerifC11StreamerAlone  the same with no other reader (thorough tier)
+//   VerifC11CloseVsTimer   Close before / after an idle-timer callback that is already under way
+//   VerifC11Twin           vacuity twin
+// Part (a)  lock balance of the exported Store methods, every internal step able to fail
+//   VerifC11Open           real Store.Open (+ refused Reap while the stream is open, release by
+//                          Close or by the idle timeout)
+//   VerifC11OpenLate       real Store.Open with failures after the snapshot scan (symbolic run only)
+//   VerifC11ReadOnly       ListAll, List, Len, LatestIndexTerm, Stats, Verify, EnsureVerify
+//   VerifC11Reap           Reap from a free / read-held / write-held lock
+//   VerifC11ReapLoop       the reaper goroutine: waits for open streams (blocking writer), reaps
+//                          once they are closed or force-closed by the idle timeout
+// (c) the lock's own invariants are decided by C34; here only its public API is used.
 //
 // The store's multi-reader/single-writer lock lives in another package; its fields are not
 // visible here, so every oracle observes it only through its public API (verifLockState).
@@ -33,8 +49,10 @@ import (
 
 // verifLockState reports how many read holds are outstanding and whether a writer holds the
 // lock, using only the lock's public, documented behaviour:
-//   BeginWrite succeeds  iff  no writer and no reader      (C34)
-//   BeginRead  succeeds  iff  no writer                    (C34)
+//
+//	BeginWrite succeeds  iff  no writer and no reader      (C34)
+//	BeginRead  succeeds  iff  no writer                    (C34)
+//
 // It leaves the lock exactly as it found it.
 func verifLockState(m *rsync.MultiRSW) (readers int, writer bool) {
 	n := 0
@@ -97,25 +115,30 @@ func (r *verifRC) Read(p []byte) (int, error) {
 }
 
 func (r *verifRC) Close() error {
-	// how closing the files goes is decided when it happens: fine, fails, or takes a while
 	if r.plain {
 		return nil
 	}
-	modes := 3
-	if r.noStall {
-		modes = 2
+	// how closing the files goes is decided when it happens: it may fail, and it may take a while
+	// (quick tier: fine, or slow and failing; thorough tier: all four combinations)
+	fails, stalls := false, false
+	if verifTier() == 1 {
+		fails = verifChoice(verifName("closeFails", r.closes), 2) == 1
+		if !r.noStall {
+			stalls = verifChoice(verifName("closeStalls", r.closes), 2) == 1
+		}
+	} else if verifChoice(verifName("closeMode", r.closes), 2) == 1 {
+		fails, stalls = true, !r.noStall
 	}
-	mode := verifChoice(verifName("closeMode", r.closes), modes)
 	r.closes++
-	switch mode {
-	case 1:
-		r.closeErr = verifErrClose
-	case 2:
+	if stalls {
 		ch := make(chan struct{})
 		r.closePark = ch
 		r.closeParked = true
 		<-ch
 		r.closeParked = false
+	}
+	if fails {
+		r.closeErr = verifErrClose
 	}
 	return r.closeErr
 }
@@ -450,6 +473,77 @@ func VerifC11StreamerAlone() {
 	verifC11Streamer(4, 0, false)
 }
 
+// VerifC11CloseVsTimer: Close racing with an idle-timer callback that is already under way.
+//
+// When the runtime fires the AfterFunc timer it starts the callback on a goroutine of its own;
+// from then on Timer.Stop (called by Close) can no longer prevent the callback, and Close and
+// the callback take the streamer's mutex in either order. VerifC11Streamer explores that race on
+// the real timer, but natively the order cannot be chosen. Here the harness plays the runtime:
+// it takes the pending firing away from the real timer (Stop - exactly the state the timer is in
+// once it has fired: inactive, Stop reports false) and, at the instant the timer is due, runs
+// the callback itself, before or after the Close. Both orders replay natively.
+func VerifC11CloseVsTimer() {
+	verifPanicsAreViolations()
+	s := verifBareStore()
+	others := verifChoice("otherReaders", 2)
+	for i := 0; i < others; i++ {
+		verifAssume(s.mrsw.BeginRead() == nil)
+	}
+	verifAssume(s.mrsw.BeginRead() == nil)
+	timeout := time.Duration(10 * verifUnit)
+	rc := &verifRC{noStall: true}
+	l := NewLockingStreamer(rc, s, timeout)
+
+	recent := verifChoice("recentActivity", 2) == 1
+	verifAssert("C11-timer-armed", l.timer != nil && l.timer.Stop()) // the harness fires it from here on
+	if recent {
+		time.Sleep(time.Duration(6 * verifUnit))
+		rc.nextN = 3
+		n, err := l.Read(make([]byte, 4))
+		verifAssert("C11-read-passes-through", n == 3 && err == nil && rc.reads == 1)
+		time.Sleep(time.Duration(4 * verifUnit))
+	} else {
+		time.Sleep(timeout)
+	}
+	verifSettle()
+	verifAssertLock("C11-hold-kept-until-timer-runs", s, others+1, false)
+
+	closeFirst := verifChoice("closeFirst", 2) == 1
+	var cerr error
+	if closeFirst {
+		verifReach("close-then-late-callback")
+		cerr = l.Close()
+		verifAssert("C11-first-close-returns-underlying-result", cerr == rc.closeErr)
+		verifAssertLock("C11-hold-released-exactly-once", s, others, false)
+		l.checkIdle() // the callback that was already under way
+	} else {
+		l.checkIdle()
+		if recent {
+			verifReach("callback-rearms-then-close")
+			verifAssertLock("C11-recent-activity-keeps-hold", s, others+1, false)
+			verifAssert("C11-recent-activity-keeps-stream-open", rc.closes == 0)
+			cerr = l.Close()
+			verifAssert("C11-first-close-returns-underlying-result", cerr == rc.closeErr)
+		} else {
+			verifReach("callback-then-close")
+			verifAssertLock("C11-hold-released-exactly-once", s, others, false)
+			cerr = l.Close()
+			verifAssert("C11-repeated-close-is-a-noop", cerr == nil)
+			n, err := l.Read(make([]byte, 4))
+			verifAssert("C11-read-after-expiry-timeout-error", n == 0 && err == ErrSnapshotReaderTimeout && rc.reads == 0)
+		}
+	}
+	verifAssertLock("C11-hold-released-exactly-once", s, others, false)
+	verifAssert("C11-underlying-closed-exactly-once-on-release", rc.closes == 1)
+	// nothing is left armed that could release again
+	time.Sleep(2 * timeout)
+	verifSettle()
+	verifAssertLock("C11-hold-released-exactly-once", s, others, false)
+	verifAssert("C11-underlying-closed-exactly-once-on-release", rc.closes == 1)
+	verifAssert("C11-close-after-release-ok", l.Close() == nil)
+	verifAssertLock("C11-hold-released-exactly-once", s, others, false)
+}
+
 // VerifC11Twin: same scenario, but claims the hold is never released - must be violated.
 func VerifC11Twin() {
 	verifC11Streamer(2, 1, true)
@@ -527,6 +621,24 @@ func verifWorldShape(k int) []verifSnapSpec {
 		return []verifSnapSpec{f1, f3}
 	}
 }
+
+// verifChooseWorld picks a directory shape out of `shapes`; the last choice adds an unloadable
+// snapshot directory to the last shape (thorough tier: to any shape).
+func verifChooseWorld(w *verifWorld, shapes []int) {
+	if verifTier() == 1 {
+		w.snaps = verifWorldShape(shapes[verifChoice("world", len(shapes))])
+		w.broken = verifChoice("broken", 2) == 1
+		return
+	}
+	k := verifChoice("world", len(shapes)+1)
+	if k == len(shapes) {
+		k--
+		w.broken = true
+	}
+	w.snaps = verifWorldShape(shapes[k])
+}
+
+var verifAllWorlds = []int{0, 1, 2, 3, 4}
 
 func (w *verifWorld) walName(i int) string { return "0000000" + string(rune('1'+i)) + walfileSuffix }
 
@@ -886,8 +998,7 @@ func VerifC11Open() {
 	pre := verifChoice("pre", 3)
 	vstate := 0
 	if pre != 2 {
-		w.snaps = verifWorldShape(verifChoice("world", 5))
-		w.broken = verifChoice("broken", 2) == 1
+		verifChooseWorld(w, verifAllWorlds)
 		vstate = verifChoice("verifyState", 3)
 		if vstate == 0 {
 			w.crcBad = verifChoice("crcBad", 2) == 1
@@ -991,8 +1102,7 @@ func VerifC11ReadOnly() {
 	w := &verifWorld{}
 	m := verifChoice("method", vMCount)
 	pre := verifChoice("pre", 3)
-	w.snaps = verifWorldShape(verifChoice("world", 5))
-	w.broken = verifChoice("broken", 2) == 1
+	verifChooseWorld(w, verifAllWorlds)
 	vstate := 0
 	if m == vMEnsureVerify {
 		vstate = verifChoice("verifyState", 3)
@@ -1089,8 +1199,7 @@ func VerifC11Reap() {
 	verifPanicsAreViolations()
 	w := &verifWorld{}
 	pre := verifChoice("pre", 3)
-	w.snaps = verifWorldShape(verifReapWorlds[verifChoice("world", len(verifReapWorlds))])
-	w.broken = verifChoice("broken", 2) == 1
+	verifChooseWorld(w, verifReapWorlds)
 	vstate := verifChoice("verifyState", 3)
 	if vstate == 0 {
 		w.crcBad = verifChoice("crcBad", 2) == 1
